@@ -449,7 +449,9 @@ fn main() {
                     reply.extend_from_slice(s.as_bytes());
                 }
                 "garbage-line" => {
-                    reply.extend_from_slice(format!("hello, this is not a solver reply{}", eol).as_bytes());
+                    // (every other invocation: a line that starts like a comment without being one)
+                    let g = if (invocation + std::process::id() as u64) % 2 == 0 { "hello, this is not a solver reply" } else { "core dumped (signal 11) in cadical::analyze" };
+                    reply.extend_from_slice(format!("{}{}", g, eol).as_bytes());
                     match verdict {
                         Some(true) => {
                             reply.extend_from_slice(status_line(true).as_bytes());
@@ -467,7 +469,8 @@ fn main() {
                         }
                         _ => reply.extend_from_slice(status_line(false).as_bytes()),
                     }
-                    reply.extend_from_slice(format!("*** internal error: out of memory ***{}", eol).as_bytes());
+                    let g = if (invocation + std::process::id() as u64) % 2 == 0 { "*** internal error: out of memory ***" } else { "crashed: out of memory" };
+                    reply.extend_from_slice(format!("{}{}", g, eol).as_bytes());
                 }
                 "double-status-unsat-first" => {
                     reply.extend_from_slice(status_line(false).as_bytes());
